@@ -106,6 +106,16 @@ def restore_code(report=MAIN_REPORT):
         verify(report=report)
 
 
+def _ensure_error_position(error):
+    """ CPython reports some syntax errors without any position (e.g., a null
+    byte in the source has ``lineno`` and ``offset`` of None); blame the first
+    line so that the feedback can still be built. """
+    if error.lineno is None:
+        error.lineno = 1
+    if error.offset is None:
+        error.offset = 1
+
+
 @CompositeFeedbackFunction(blank_source, syntax_error, indentation_error, source_file_not_found)
 def verify(code=None, filename=DEFAULT_STUDENT_FILENAME, report=MAIN_REPORT,
            muted=False, enhance=True):
@@ -137,11 +147,13 @@ def verify(code=None, filename=DEFAULT_STUDENT_FILENAME, report=MAIN_REPORT,
         parsed = ast.parse(code, filename)
         report[TOOL_NAME]['ast'] = parsed
     except IndentationError as e:
+        _ensure_error_position(e)
         indentation_error(e.lineno, e.filename, code, e.offset, e,
                           sys.exc_info(), report=report, muted=muted, enhance=enhance)
         report[TOOL_NAME]['success'] = False
         report[TOOL_NAME]['ast'] = ast.parse("")
     except SyntaxError as e:
+        _ensure_error_position(e)
         syntax_error(e.lineno, e.filename, code, e.offset, e,
                      sys.exc_info(), report=report, muted=muted, enhance=enhance)
         report[TOOL_NAME]['success'] = False
